@@ -27,8 +27,7 @@ def check(F, rep, tier):
     # the cut position counts characters (max_length is a character count): nth(max_len) on char_indices
     san.phase_order(F, rep, "R16.3")
     san.integer_sanitiser(F, rep, "R16.4")
-    san.predicates_in_closures(F, rep, "R16.5", "Sanitizer::remove_leading_zeros_from_segment", "is_ascii_digit", 1)
-    san.predicates_in_closures(F, rep, "R16.4", "Sanitizer::sanitize_to_integer", "is_ascii_digit", 1)
+    san.predicates_in_closures(F, rep, "R16.5", None, "is_ascii_digit", 1)          # every chars().all/any predicate of the module, whatever the helper is called
     san.zero_strip_result(F, rep, "R16.5")
     san.zero_strip_paths(F, rep, "R16.5")
     san.replace_result_origin(F, rep, "R16.1")
